@@ -11,17 +11,24 @@ Push1 == {"expr_true", "expr_false", "expr_double", "expr_string", "expr_nat", "
 Unary == {"expr_unary", "expr_post_increment", "expr_pre_increment", "expr_post_decrement", "expr_pre_decrement", "expr_dot", "expr_builtin_function1",
           "expr_MITL_formula", "expr_MITL_next", "expr_MITL_atom", "expr_MITL_diamond", "expr_MITL_box", "expr_numof", "expr_location"}
 Binary == {"expr_binary", "expr_assignment", "expr_comma", "expr_array", "expr_builtin_function2", "expr_MITL_until", "expr_MITL_release", "expr_MITL_disj", "expr_MITL_conj"}
-Pop1 == {"proc_guard", "proc_sync", "proc_update", "proc_prob", "proc_condition", "proc_LSC_update", "proc_message", "before_update", "after_update",
-         "chan_priority_begin", "chan_priority_add", "expr_statement", "assert_statement"}
+Pop1 == {"proc_guard", "proc_sync", "proc_update", "proc_prob", "before_update", "after_update",
+         "chan_priority_begin", "chan_priority_add", "expr_statement", "assert_statement", "while_end", "do_while_end"}
+ScopeIn == {"proc_begin", "proc_edge_begin", "instantiation_begin", "block_begin", "instance_name_begin", "gantt_decl_begin", "gantt_entry_begin"}
+ScopeOut == {"proc_end", "proc_edge_end", "block_end", "decl_func_end"}
 TypePush == {"type_int", "type_bool", "type_double", "type_clock", "type_channel", "type_void", "type_string", "type_name"}
 QBegin == {"expr_forall_begin", "expr_exists_begin", "expr_sum_begin"}
 QEnd == {"expr_forall_end", "expr_exists_end", "expr_sum_end"}
 Neutral == {"expr_call_begin", "handle_error", "handle_warning", "done", "process_list_end", "if_begin", "if_condition", "if_then", "query_begin", "query_end",
-            "proc_priority_inc", "block_begin", "block_end", "empty_statement"}
+            "proc_priority_inc", "empty_statement", "proc_location_commit", "proc_location_urgent", "proc_location_init", "proc_branchpoint", "proc_priority", "process",
+            "query_formula", "query_comment", "query_options", "model_option", "decl_dynamic_template", "dynamic_load_lib", "decl_field_init", "proc_instance_line",
+            "instance_name", "prechart_set", "expectation_begin", "expectation_end", "expectation_value", "expect_resource", "for_begin", "while_begin", "do_while_begin",
+            "struct_field_done", "set_position", "add_position"}
 
-Known(cb) == cb \in Push1 \cup Unary \cup Binary \cup Pop1 \cup TypePush \cup QBegin \cup QEnd \cup Neutral \cup
+Known(cb) == cb \in Push1 \cup Unary \cup Binary \cup Pop1 \cup TypePush \cup QBegin \cup QEnd \cup Neutral \cup ScopeIn \cup ScopeOut \cup
              {"expr_call_end", "expr_inline_if", "expr_builtin_function3", "expr_nary", "expr_ternary", "type_bounded_int", "type_scalar", "type_duplicate",
-              "type_pop", "proc_select", "type_array_of_size", "type_array_of_type", "decl_var", "decl_parameter", "decl_typedef", "proc_location"}
+              "type_pop", "proc_select", "type_array_of_size", "type_array_of_type", "decl_var", "decl_parameter", "decl_typedef", "proc_location",
+              "decl_func_begin", "decl_external_func", "decl_init_list", "if_end", "return_statement", "instantiation_end", "proc_message", "proc_condition",
+              "proc_LSC_update", "type_struct", "struct_field", "iteration_begin", "iteration_end", "for_end", "instance_name_end", "expr_spawn"}
 
 (* a: sequence of argument values [n, s] as LR.tla passes them *)
 Eff(cb, a) ==
@@ -33,6 +40,22 @@ Eff(cb, a) ==
       [] cb \in QBegin -> E(0, 0, 1, -1, 1)
       [] cb \in QEnd -> E(1, 0, 0, 0, -1)
       [] cb \in Neutral -> E(0, 0, 0, 0, 0)
+      [] cb \in ScopeIn -> E(0, 0, 0, 0, 1)
+      [] cb \in ScopeOut -> E(0, 0, 0, 0, -1)
+      [] cb = "decl_func_begin" -> E(0, 0, 1, -1, 1)              \* return type popped, parameter scope pushed
+      [] cb = "decl_external_func" -> E(0, 0, 1, -1, 0)
+      [] cb = "decl_init_list" -> E(a[1].n, 1 - a[1].n, 0, 0, 0)
+      [] cb = "if_end" -> E(1, -1, 0, 0, 0)
+      [] cb = "for_end" -> E(3, -3, 0, 0, 0)
+      [] cb = "return_statement" -> IF a[1].s = "true" THEN E(1, -1, 0, 0, 0) ELSE E(0, 0, 0, 0, 0)
+      [] cb = "instantiation_end" -> E(a[4].n, 0 - a[4].n, 0, 0, -1)
+      [] cb = "instance_name_end" -> E(a[2].n, 0 - a[2].n, 0, 0, -1)
+      [] cb \in {"proc_message", "proc_condition", "proc_LSC_update"} -> IF Len(a) <= 1 THEN E(1, -1, 0, 0, 0) ELSE E(0, 0, 0, 0, 0)     \* the label overload pops its expression
+      [] cb = "type_struct" -> E(0, 0, 0, 1, 0)
+      [] cb = "struct_field" -> E(0, 0, 1, -1, 0)
+      [] cb = "iteration_begin" -> E(0, 0, 1, -1, 1)
+      [] cb = "iteration_end" -> E(0, 0, 0, 0, -1)
+      [] cb = "expr_spawn" -> E(a[1].n + 1, 0 - a[1].n, 0, 0, 0)
       [] cb = "expr_call_end" -> E(a[1].n + 1, 0 - a[1].n, 0, 0, 0)
       [] cb = "expr_inline_if" -> E(3, -2, 0, 0, 0)
       [] cb = "expr_builtin_function3" -> E(3, -2, 0, 0, 0)
@@ -45,9 +68,9 @@ Eff(cb, a) ==
       [] cb = "proc_select" -> E(0, 0, 1, -1, 0)
       [] cb = "type_array_of_size" -> E(1, -1, 1, 0, 0)
       [] cb = "type_array_of_type" -> E(0, 0, 2, -1, 0)
-      [] cb = "decl_var" -> IF a[2].s = "true" THEN E(1, -1, 1, 0, 0) ELSE E(0, 0, 1, 0, 0)      \* the type stays for the next declarator (type_pop ends the list)
+      [] cb = "decl_var" -> IF a[2].s = "true" THEN E(1, -1, 1, -1, 0) ELSE E(0, 0, 1, -1, 0)    \* every declarator is preceded by type_duplicate and pops its copy
       [] cb = "decl_parameter" -> E(0, 0, 1, -1, 0)
-      [] cb = "decl_typedef" -> E(0, 0, 1, 0, 0)
+      [] cb = "decl_typedef" -> E(0, 0, 1, -1, 0)
       [] cb = "proc_location" -> E((IF a[2].s = "true" THEN 1 ELSE 0) + (IF a[3].s = "true" THEN 1 ELSE 0),
                                    0 - ((IF a[2].s = "true" THEN 1 ELSE 0) + (IF a[3].s = "true" THEN 1 ELSE 0)), 0, 0, 0)
 
